@@ -34,7 +34,7 @@ check("C07", "model_checking",
       "exhaustive bounded arrival-sequence enumeration + bounded schedule deviations on the real dispatch code", "DESIGN.md §2 C07", "E1+E2+E3")
 
 check("C08", "model_checking",
-      "Explicit-state BFS to CLOSURE (~2,500 states, ~16,000 transitions) over the real GeckoAsyncSpaMan (real pump, _handle_event, reset, set_spa_info, locate/connect wrappers, status sensor, real spa.disconnect) with discover/_connect outcomes injected step-wise, spa-originated events raised from their own tasks, user resets, suspension of the client's handle_event and its failing inside a started phase, plus an exit of the manager at every state in which the pump is inside a started phase; lock-step with a lifecycle table + invariants at every delivery.",
+      "Explicit-state BFS to CLOSURE (~1,200 states, ~10,000 transitions) over the real GeckoAsyncSpaMan (real pump, _handle_event, reset, set_spa_info, locate/connect wrappers, status sensor, real spa.disconnect) with discover/_connect outcomes injected step-wise, spa-originated events raised from their own tasks, user resets, suspension of the client's handle_event and its failing inside a started phase, plus an exit of the manager at every state in which the pump is inside a started phase; lock-step with a lifecycle table + invariants at every delivery.",
       "environment injected at the discover/_connect seams (as tests/test_spaman.py does); light facade that fails exactly when the real constructor must; state canonicalisation documented in props/c08.py.",
       "explicit-state BFS over real objects (rebuild-and-replay) to closure, reference-table lock-step", "DESIGN.md §2 C08", "E4 on E1")
 check("C09", "fault_enumeration",
